@@ -1216,3 +1216,53 @@ M("C10", "set_jsgf_string: parse result not tested", "src/decoder.c", """    jsg
 
 """, "ERRD.null")
 M("C10", "benign: dict length test as > 1", "src/dict.c", "    return dict->ptr - line >= 2\n", "    return dict->ptr - line > 1\n", None, "benign")
+
+# ---- C09 ----------------------------------------------------------------------
+M("C09", "process: ENDED accepted again (revert)", "src/decoder.c", "    if (d->acmod->state == ACMOD_IDLE || d->acmod->state == ACMOD_ENDED) {", "    if (d->acmod->state == ACMOD_IDLE) {", "STATE.guards", first=True)
+M("C09", "start_utt: PROCESSING accepted (seed C09-2 core)", "src/decoder.c", "    if (d->acmod->state == ACMOD_STARTED || d->acmod->state == ACMOD_PROCESSING) {", "    if (d->acmod->state == ACMOD_STARTED) {", "STATE.guards")
+M("C09", "end_utt: refuses STARTED too", "src/decoder.c", "    if (d->acmod->state == ACMOD_ENDED || d->acmod->state == ACMOD_IDLE) {", "    if (d->acmod->state != ACMOD_PROCESSING) {", "STATE.guards")
+M("C09", "end_utt: refusal returns 0", "src/decoder.c", """        E_ERROR("Utterance is not started\\n");
+        return -1;""", """        E_ERROR("Utterance is not started\\n");
+        return 0;""", "STATE.guards")
+M("C09", "start_utt: search test dropped", "src/decoder.c", """    if (d->search == NULL) {
+        E_ERROR("No search module is selected, did you forget to "
+                "specify a language model or grammar?\\n");
+        return -1;
+    }
+
+    ptmr_reset(&d->perf);""", """    ptmr_reset(&d->perf);""", "NULL.fields")
+M("C09", "alignment: zero-word test dropped (revert)", "src/decoder.c", """    if (alignment_n_words(al) == 0) {
+        alignment_free(al);
+        return NULL;
+    }
+""", "", "EMPTY.align")
+M("C09", "alignment: alignment freed twice when populate fails", "src/decoder.c", """        /* Not yet owned by the search module so we must free it */
+        alignment_free(al);
+        return NULL;""", """        /* Not yet owned by the search module so we must free it */
+        alignment_free(al);
+        alignment_free(al);
+        return NULL;""", "UNWIND")
+M("C09", "jsgf_parse_file: file left open on failure (revert)", "src/jsgf.c", """        jsgf_grammar_free(jsgf);
+        if (in)
+            fclose(in);
+        yylex_destroy(yyscanner);
+        return NULL;""", """        jsgf_grammar_free(jsgf);
+        yylex_destroy(yyscanner);
+        return NULL;""", "UNWIND")
+M("C09", "add_word: pron array sized in bytes (revert)", "src/decoder.c", "    pron = ckd_calloc(strlen(phones) + 1, sizeof(*pron));", "    pron = ckd_calloc(1, strlen(phones));", "ALLOCSZ")
+M("C09", "dict: base string of an empty word", "src/dict.c", "    if (len > 0 && word[len - 1] == ')') {", "    if (word[len - 1] == ')') {", "LEN.nonempty")
+M("C09", "new exit on the decode path", "src/decoder.c", """    if (no_search)
+        acmod_set_grow(d->acmod, TRUE);""", """    if (n_samples > 100000000)
+        E_FATAL("too much audio\\n");
+    if (no_search)
+        acmod_set_grow(d->acmod, TRUE);""", "EXIT.api", first=True)
+M("C09", "set_fsg: fsg used after fsg_search_init", "src/decoder.c", """    search = fsg_search_init(fsg->name, fsg, d->config, d->acmod, d->dict, d->d2p);
+    if (search == NULL)
+        return -1;""", """    search = fsg_search_init(fsg->name, fsg, d->config, d->acmod, d->dict, d->d2p);
+    if (search == NULL) {
+        E_ERROR("Failed to use grammar %s\\n", fsg->name);
+        return -1;
+    }""", "OWN.consume")
+M("C09", "json: sizing forgets the empty segment list (seed C09-1 core)", "src/decoder.c", """        seg_iter_t *itor = decoder_seg_iter(d);
+        if (itor == NULL)
+            maxlen++; /* ] at end */""", """        seg_iter_t *itor = decoder_seg_iter(d);""", "EMIT.E1-two-passes")
